@@ -95,7 +95,7 @@ def group_fp(funcs):
     return c
 
 
-def match(missing, extra, table):
+def match(missing, extra, table, cross=False):
     """missing: recorded qbases absent from the tree; extra: {qbase: [Func]}
     present but not recorded.  Returns {recorded qbase: actual qbase}."""
     out = {}
@@ -103,8 +103,20 @@ def match(missing, extra, table):
     # 1. moved: same last name, unique on both sides
     for m in sorted(missing):
         cands = [q for q in extra if tail(q) == tail(m) and q not in taken
-                 and ('>' in q) == ('>' in m)]
+                 and (cross or ('>' in q) == ('>' in m))]
         others = [x for x in missing if x != m and tail(x) == tail(m)]
+        if len(cands) == 1 and not others:
+            out[m] = cands[0]
+            taken.add(cands[0])
+    # 1b. moved across nesting levels (a module-level helper nested into
+    # its only caller, or a closure hoisted to module level): same last
+    # name, unique
+    for m in sorted(missing):
+        if m in out:
+            continue
+        cands = [q for q in extra if tail(q) == tail(m) and q not in taken]
+        others = [x for x in missing if x != m and tail(x) == tail(m)
+                  and x not in out]
         if len(cands) == 1 and not others:
             out[m] = cands[0]
             taken.add(cands[0])
@@ -115,7 +127,7 @@ def match(missing, extra, table):
     for m in todo:
         ref = collections.Counter(table[m]['fp'])
         for q, fp in fps.items():
-            if ('>' in q) != ('>' in m):
+            if ('>' in q) != ('>' in m) and not cross:
                 continue
             scored.append((similarity(ref, fp), m, q))
     scored.sort(reverse=True)
